@@ -11,7 +11,7 @@ from ..families import (sample_config, make_data, make_affinity, build_model, FA
 from ..refs import ref_gemini
 from ..seams import World, ModelHarness
 from .common import (sample_constraints, sample_sched, decorate, expected_batches, exc_site, is_harness_frame, quiet,
-                     sample_prefix, second_dataset, run_generic_op)
+                     sample_prefix, second_dataset, run_generic_op, apply_layout, sample_layouts)
 
 PROPERTY = "C03"
 RULE = ("one run = one seeded fit (sparse families: optionally followed by a short path) of a sampled family x GEMINI x solver "
@@ -44,6 +44,9 @@ def generate(rng):
         deco = sample_constraints(rng, cfg["n"])
     cfg["decorate"] = deco
     cfg["n2"] = cfg["n"] if rng.random() < 0.5 else rng.randint(max(2, cfg["params"]["n_clusters"]), 12)
+    # no float32 inputs here: path() then computes its affinity in single precision and the GEMINI accumulates in mixed
+    # precision, which is a conditioning matter (C17), not a matter of which gradient formula is used
+    cfg["layouts"] = sample_layouts(rng, float32=False)
     ops = sample_prefix(rng, cfg, p_any=0.3, max_len=3) + [{"op": "fit", "data": 0}]
     if fam.get("sparse") and cfg["d"] >= 2 and rng.random() < 0.4:
         ops.append({"op": "path", "data": 0, "args": {"alpha_multiplier": choice(rng, [3.0, 10.0]), "min_features": cfg["d"] - 1,
@@ -280,7 +283,9 @@ def execute(record):
         import copy as _copy
         cur_cfg = _copy.deepcopy(cfg)
         oracle.cfg = cur_cfg
-        pool = [(X, A), second_dataset(cfg)]
+        X1, A1 = second_dataset(cfg)
+        lay = cfg.get("layouts") or ["C", "C"]
+        pool = [(apply_layout(X, lay[0]), A), (apply_layout(X1, lay[1]), A1)]
         with world, quiet():
             for op in record["ops"]:
                 outcome = run_generic_op(op, model, world, pool, cur_cfg, res, log)
